@@ -70,10 +70,10 @@ COVER = {
         "C16": (([1, 2], 1, 6, 2, ["add", "empty", "compactall", "clean", "addition", "abort"], False), 500),
     },
     "thorough": {
-        "C04": (([1, 2], 2, 6, 2, ["add", "compactall"], False), 25000),
+        "C04": (([1, 2], 2, 6, 2, ["add", "compactall"], False), 6000),
         "C05": (([1, 2], 1, 6, 3, ["add", "compactrange", "reopen"], False), None),
         "C06": (([1, 2], 1, 5, 2, ["add", "compactall"], True), None),
-        "C08": (([1, 2, 3], 1, 5, 2, ["add"], False, [1], ["compactall"], 1), 25000),
+        "C08": (([1, 2, 3], 1, 5, 2, ["add"], False, [1], ["compactall"], 1), 6000),
         "C09": (([1, 2], 1, 5, 2, ["add", "compactall"], False), None),
         "C10": [(([1, 2], 3, 4, 1, ["add", "compactrange"], False, [1], ["reload", "reopen"], 3), None),
                 (([1, 2], 3, 6, 3, ["add", "compactrange"], False, [1], ["reload"], 2), None)],
@@ -82,7 +82,8 @@ COVER = {
 }
 
 # direction A / B volumes: (walks, walk depth, random runs, crash runs)
-VOL = {"quick": (150, 90, 250, 400), "thorough": (3000, 140, 6000, 100000)}
+# (thorough: measured 2 h for C04 with 3000 / 6000 / covers of 25 000 paths on a loaded machine; sized to about 45 min)
+VOL = {"quick": (150, 90, 250, 400), "thorough": (1000, 140, 2500, 100000)}
 
 # op mix of the random runs, per property
 WEIGHTS = {
@@ -256,7 +257,7 @@ def run(pid, tier):
             cr, crash_total, crash_complete = crash_runs(drv, sc, rng, nc)
             runs += cr
         elif pid in ("C05", "C16", "C04"):
-            for i in range(nc // 5):
+            for i in range(min(nc // 5, 3000)):
                 runs.append(P.random_run(rng, "c%d" % i, crash=True, weights=WEIGHTS.get(pid)))
 
         outs = P.run_driver(drv, runs, sc)
